@@ -1,5 +1,72 @@
-"""Engine S: obligations discharged by the Rust type checker (DESIGN 2.5) — filled in below."""
+"""Engine S: obligations discharged by the Rust type checker (DESIGN 2.5).
+
+`Tera`, `Context`, `Value`, `Error`, `Kwargs`, `State` are `Send + Sync` (C18: "the engine,
+context, value and error types stay usable across threads").  A tiny crate that depends on the
+working tree's `tera` by path contains one bound check per type; `cargo check` discharges them.
+A field that removes `Sync` makes that line fail to type-check: the failed obligation names the
+type (no input exists to replay)."""
+import os
+import re
+import shutil
+import subprocess
+import time
+
+from vx import VERIF
+
+REPO = os.environ.get("VERIF_REPO", "/repo")
+TYPES = [
+    ("tera::Tera", "Send + Sync"),
+    ("tera::Context", "Send + Sync"),
+    ("tera::Value", "Send + Sync"),
+    ("tera::Error", "Send + Sync"),
+    ("tera::Kwargs", "Send + Sync"),
+    ("tera::State<'static>", "Send + Sync"),
+    ("tera::Number", "Send + Sync"),
+]
 
 
 def run_for(prop, scratch, outdir):
-    return [], []
+    from driver import Result
+
+    if prop not in ("C18", "ALL"):
+        return [], []
+    d = os.path.join(scratch, "engine_s")
+    os.makedirs(os.path.join(d, "src"), exist_ok=True)
+    with open(os.path.join(d, "Cargo.toml"), "w") as f:
+        f.write('[package]\nname = "verif_engine_s"\nversion = "0.0.0"\nedition = "2021"\n[dependencies]\ntera = { path = "%s/tera" }\n[workspace]\n' % REPO)
+    lines = ["#![allow(dead_code)]", "fn bound<T: Send + Sync>() {}"]
+    line_of = {}
+    for (t, b) in TYPES:
+        lines.append(f"fn check_{len(line_of)}() {{ bound::<{t}>(); }}")
+        line_of[len(lines)] = t
+    lines.append("fn main() {}")
+    with open(os.path.join(d, "src", "main.rs"), "w") as f:
+        f.write("\n".join(lines) + "\n")
+    shutil.copy(os.path.join(REPO, "Cargo.lock"), os.path.join(d, "Cargo.lock"))
+    env = dict(os.environ)
+    env["CARGO_NET_OFFLINE"] = "true"
+    env["CARGO_TARGET_DIR"] = os.path.join(VERIF, "build", "engine-s-target")
+    t0 = time.time()
+    p = subprocess.run(["cargo", "check", "--offline", "--message-format=short"], cwd=d, env=env, capture_output=True)
+    wall = time.time() - t0
+    err = p.stderr.decode(errors="replace")
+    with open(os.path.join(outdir, "engine_s.log"), "w") as f:
+        f.write(err)
+    failed = {}
+    for m in re.finditer(r"src/main\.rs:(\d+):\d+: error(?:\[E\d+\])?: (.*)", err):
+        ln = int(m.group(1))
+        if ln in line_of:
+            failed[line_of[ln]] = m.group(2)
+    other_error = p.returncode != 0 and not failed
+    results = []
+    for (t, b) in TYPES:
+        meta = {"unit": "engine_s", "props": ["C18"], "fn": t, "what": f"{t}: {b} (auto-trait bound checked by rustc)"}
+        ob = f"engine_s/{t.split('<')[0]}"
+        if other_error:
+            results.append(Result(ob, "S", "undecided", "cargo check failed for another reason: " + err[-400:], 0, meta))
+        elif t in failed:
+            results.append(Result(ob, "S", "false", f"rustc: {failed[t]}", 0, meta))
+        else:
+            results.append(Result(ob, "S", "verified", "", 0, meta))
+    info = {"unit": "engine_s", "engine": "rustc", "cmd": "cargo check --offline (crate with one `bound::<T: Send + Sync>()` per type, tera by path)", "wall_s": wall, "smt_s": 0.0, "trusted": [], "functions": [t for t, _ in TYPES], "assumptions": ["engine S decides only the type-level part of thread safety; no schedule is explored (Kani has no thread support)"]}
+    return results, [info]
